@@ -272,6 +272,11 @@ def _classify(case, loc, window, flip):
         return site, "half-integer disparity at cross-checking, odd column offset"
     if loc["kind"] == "aggregation" and method == "zncc" and loc["var"] == "cost_volume" and loc["maxabs"] <= TINY:
         return site, "zncc costs, rounding-level"
+    kinds = [legal.kind_of(n) for n in case["pipe"]]
+    if (loc["kind"] == "aggregation" and loc["var"] == "cost_volume" and loc["maxabs"] <= TINY
+            and kinds.count("aggregation") >= 2 and loc.get("index", 0) > kinds.index("aggregation")):
+        # a second cbca aggregates the (non-integer) averages produced by the first one: same float32 running sums
+        return site, "already aggregated (non-integer) costs, rounding-level"
     return site, f"{loc['var']}, {'rounding-level' if loc['maxabs'] <= TINY else 'different values'}"
 
 
